@@ -648,7 +648,12 @@ func reportWorldViolation(prop string, m *Merged, mk func() Checker, kf *KnownFi
 		fmt.Printf("VIOLATION property=%s replay=%s\n", prop, path)
 		return 1
 	}
+	keepPatience := blockPatience
+	if fv.V.Witness["blocked-in"] != "" && blockPatience > time.Second {
+		blockPatience = time.Second // every candidate that still blocks costs one patience
+	}
 	small := shrinkWorld(fv.Plan, pred)
+	blockPatience = keepPatience
 	// the minimised plan must reproduce twice
 	r1 := runWorld(&small, mk, kf, true)
 	r2 := runWorld(&small, mk, kf, false)
@@ -690,6 +695,9 @@ func runPrelude(prop string, p *Prelude, mk func() Checker, kf *KnownFindings) {
 func sameSignature(a, b *Violation) bool {
 	if a.Clause == "C02.panic" {
 		return a.Witness["frame"] == b.Witness["frame"]
+	}
+	if a.Clause == "C02.hang" {
+		return (a.Witness["blocked-in"] != "") == (b.Witness["blocked-in"] != "") // blocked, or over the statement budget
 	}
 	return true
 }
